@@ -359,7 +359,7 @@ def transformed_coeffs(order, a, rd):
 def jobs(tier):
     js = [Job(f"coeff/order{k}", job_coeff, k) for k in (1, 2, 3)]
     for driver in ("bvp", "ivp"):
-        for order in (2, 3) if tier == "quick" else (1, 2, 3):
+        for order in (1, 2, 3):
             for with_tf in (False, True):
                 js.append(Job(f"driver/{driver}/order{order}/{'tf' if with_tf else 'plain'}", job_driver, driver, order, with_tf))
     only = os.environ.get("SYMGRID_ONLY")
